@@ -3,6 +3,7 @@ package checks
 import (
 	"bytes"
 	"fmt"
+	"io"
 	"strings"
 	"time"
 
@@ -286,6 +287,53 @@ func c09StratUnit(c *core.Ctx, e *cat.Strat, cfg []float64) {
 		}
 		c.States++
 		c.Evaluations++
+	}
+	// Inputs are shared objects: the backtester hands the SAME snapshot pointers to every strategy of an
+	// asset and to the report, every Report runs Compute next to its own column branches over one Duplicate,
+	// and InMemoryRepository.Get serves the stored pointers on every call. A Compute or Report that writes to
+	// the snapshots it receives makes every later (or concurrent) call on those objects differ from a call of a
+	// fresh instance on the pristine values, and races with the sibling readers. The series below uses all
+	// seven bars (including the zero-volume and zero-range ones, where guards and clamps sit).
+	{
+		n := 2*w + 4
+		rows := make([][5]float64, n)
+		for i := range rows {
+			rows[i] = sigmaBars[(i*5+i/2)%len(sigmaBars)]
+		}
+		snaps := cat.Snapshots(rows)
+		pristine := core.Dump(snaps)
+		cs := map[string]any{"strategy": e.Name, "config": cfg, "bars_OHLCV": rows}
+		races := func(res *mc.Result, what string) {
+			for _, rc := range res.Races {
+				a, b := rc.Site1, rc.Site2
+				if a > b {
+					a, b = b, a
+				}
+				c.Fail(raceKey(a+" <> "+b), fmt.Sprintf("%s, %s on a series with zero-volume and zero-range bars: data race between %s <> %s", label, what, a, b), cs)
+			}
+		}
+		r := RunStrategy(e.New(cfg), snaps, 0, mc.Options{Races: true})
+		c.Executions++
+		c.Transitions += int64(r.Res.Events)
+		races(r.Res, "Compute")
+		if d := core.Dump(snaps); d != pristine {
+			c.Fail("", fmt.Sprintf("%s: Compute modified the snapshots it was given (they are shared with every other consumer of the same series, whose results then depend on the order of the calls)", label), cs)
+		} else {
+			res := mc.Run(func() {
+				rep := e.New(cfg).Report(Feed(snaps, 0))
+				rep.GeneratedOn = ""
+				rep.WriteToWriter(io.Discard)
+			}, mc.Options{Races: true})
+			c.Executions++
+			c.Transitions += int64(res.Events)
+			races(res, "Report")
+			if d := core.Dump(snaps); d != pristine {
+				c.Fail("", fmt.Sprintf("%s: Report modified the snapshots it was given (they are shared with every other consumer of the same series)", label), cs)
+			}
+		}
+		c.States++
+		c.Evaluations++
+		c.Nontrivial++
 	}
 	// concurrent: two Compute calls on one instance
 	spairs := [][2]int{{2, 3}, {3, 3}, {4, 1}}
